@@ -39,7 +39,13 @@ func verifC10MemDiscipline() {
 	v := verifNondetBytes("v", vlen)
 
 	verifGuardedBy(d)
-	verifSharedReach(d.blocks)
+	verifSharedReach(d)
+	if verifGuards() == 0 {
+		// no lock anywhere in the disk: a lock-free implementation. The lock-discipline conditions
+		// do not apply; verifC10MemConcurrent (scheduler + race check) decides
+		verifCover("c10/mem")
+		return
+	}
 	verifMonitor(true)
 	panicked := verifTry(func() { verifC10Op(d, op, a, buf, v) })
 	verifMonitor(false)
@@ -49,17 +55,18 @@ func verifC10MemDiscipline() {
 	inRange := a < uint64(n)
 	switch op {
 	case 0, 1:
-		verifAssert("mem/one-critical-section", verifSections() == 1)
+		// (a refused call may take no lock at all)
+		verifAssert("mem/one-critical-section", verifSections() <= 1)
 		verifAssert("mem/reads-block-under-lock", verifImplies(inRange, verifProtected() > 0))
 	case 2:
 		if vlen == int(BlockSize) {
-			verifAssert("mem/one-critical-section", verifSections() == 1)
+			verifAssert("mem/one-critical-section", verifSections() <= 1)
 			verifAssert("mem/writes-block-under-lock", verifImplies(inRange, verifProtected() > 0))
 		} else {
 			verifAssert("mem/bad-buffer-refused-before-touching", verifAnd(panicked, verifProtected() == 0))
 		}
 	case 3:
-		verifAssert("mem/size-touches-no-shared-cell", verifAnd(verifProtected() == 0, verifSections() == 0))
+		verifAssert("mem/size-touches-no-shared-cell", verifProtected() == 0)
 	}
 	verifCover("c10/mem")
 
